@@ -116,6 +116,7 @@ props["C06"] = {
         run("root", "VxC06Compact", {"K": 2, "C": 2, "DST": 2}, {"K": 2, "C": 3, "DST": 2}, note="level 1 -> level 2, multi-TXID inputs"),
         run("root", "VxC08Latest", {"N": 3, "M": 5}, {"N": 4, "M": 6}, note="whichever mix of levels a replica holds, the plan for the latest state is a valid chain and is found when one exists (shared with C08)"),
         run("root", "VxC06CacheRace", {}, {}, note="the newest-file cache when a compaction finishes while another monitor's listing is in flight (possible only if the cache is not locked during the listing)"),
+        run("root", "VxC06Backlog", {"N": 300}, {"N": 600}, note="a backlog of N single-transaction source files drained by successive passes: each written file is the ordered application of exactly the range in its name"),
         run("root", "VxC06LevelEnd", {"K": 3}, {"K": 4}, note="the newest file of a level as the DB caches it, while the listing that fills the cache may break off part-way: an end is taken only from a complete listing"),
         run("root", "VxC06DBCompact", {"N": 3}, {"N": 4}, note="DB.Compact(1) with the DB's own compactor wiring and a local directory that is a suffix of / one ahead of the replica, followed by level-0 retention"),
         run("root", "VxC02Snapshot", {}, {}, note="level-9 snapshots (DB.Snapshot's page source): size and every page equal the state at the advertised position, also after a shrink (shared with C02)"),
@@ -317,7 +318,8 @@ props["C14"] = {
         run("root", "VxC14Checkpoint", {}, {}),
         run("root", "VxC14Close", {}, {}),
         run("cmd", "VxC14RestoreIfNeeded", {}, {}, note="the -restore-if-db-not-exists start-up step leaves an existing database file alone, also an empty one"),
-        run("root", "VxC14EnsureExists", {}, {}, note="start-up restore never touches an existing source database, its -wal or -shm"),
+        run("root", "VxC14EnsureExists", {}, {}, note="start-up restore never touches an existing source database, its -wal or -shm - also one the application creates while litestream is still asking an empty replica (interleaving point: the listing call)"),
+        run("root", "VxC14ResetLocal", {}, {}, note="a reset of the local state with the meta path at its default, at the database's own directory or at an ancestor: database, -wal, -shm and neighbouring files stay"),
     ],
     "assumptions": [
         "symsql: every database/sql call db.go makes (BeginTx, ExecContext, QueryRowContext/Scan, Tx.ExecContext/Rollback/Commit, Close) is handed to an environment handler that may fail it (SQLITE_BUSY) and that records statements and transaction lifetimes; natively the same handler sits behind a database/sql driver",
@@ -340,6 +342,8 @@ props["C11"] = {
         run("root", "VxC10Restore", {}, {}, note="restore output: renamed only after flush and close (shared with C10)"),
         run("root", "VxC11SyncResetSync", {}, {}, note="sync, run-time reset of the local state, sync: the directory that exists now is the one flushed"),
         run("root", "VxC11RestoreFollow", {}, {}, note="follow-mode restore: database flushed before it is renamed, sidecar published after"),
+        run("root", "VxC11FollowFlush", {"N": 3}, {"N": 4}, note="the follow loop with the real apply path over every placement of the next N TXIDs at levels 0-2: the sidecar is only ever published beside a flushed database"),
+        run("root", "VxC19Restore", {"IDX": 2, "DUR": 1}, {"IDX": 2, "DUR": 1}, note="legacy-format restore: the database is renamed into place only with its content flushed, whether or not SQLite's checkpoint happened to flush it (shared with C19)"),
     ],
     "unreached_ok": ["existing-output-refused-and-untouched", "damaged-replica-is-an-error", "damaged-replica-leaves-no-output", "success-means-correct-database", "temp-file-gone", "integrity-check-ran", "output-on-error-is-complete", "refused-stream-leaves-no-temp-file"],
     "assumptions": [
